@@ -90,3 +90,70 @@ def enum_value_on_trace(body, ex, bb, scrut, variants_by_discr):
             else:
                 poss -= {other[2]}
     return poss
+
+
+def _as_value(e):
+    """Concrete value of a constant expression: int/bool or enum variant name."""
+    e = strip_refs(e)
+    if e[0] == "const":
+        return e[1]
+    if e[0] == "agg" and e[2] and not e[3]:
+        return e[2]
+    return None
+
+
+def refuted_edges(body, ex, hyp, variants=None):
+    """CFG edges that contradict a hypothesis.  hyp: {expr: ('eq', v) | ('ne', v)} with v an int or
+    an enum variant name; variants: {expr: {discr: name}} for enum-typed hypothesis expressions.
+    Only switches on `Eq/Ne(expr, constant)` and `discriminant(expr)` are interpreted; every other
+    switch keeps all its edges (over-approximation of feasible paths)."""
+    out = set()
+    hyp = {strip_refs(k): v for k, v in hyp.items()}
+    variants = {strip_refs(k): v for k, v in (variants or {}).items()}
+    for s in body.normal:
+        if s not in body.reachable or body.term(s)["k"] != "switch":
+            continue
+        d = ex.switch_discr(s)
+        t = body.term(s)
+        edges = switch_edges(body, s)
+        if d[0] == "bin" and d[1] in ("Eq", "Ne"):
+            a, c = strip_refs(d[2]), strip_refs(d[3])
+            x, k = (a, _as_value(c)) if a in hyp else ((c, _as_value(a)) if c in hyp else (None, None))
+            if x is None or k is None:
+                continue
+            rel, v = hyp[x]
+            if rel == "eq":
+                truth = (v == k)
+            elif v == k or (isinstance(v, (tuple, set, frozenset)) and k in v):
+                truth = False      # x != k known
+            else:
+                continue            # x != v says nothing about x == k
+            if d[1] == "Ne":
+                truth = not truth
+            for tg, vals, oth in edges:
+                edge_truth = None
+                if vals == [0] and not oth:
+                    edge_truth = False
+                elif vals == [1] and not oth:
+                    edge_truth = True
+                elif oth:
+                    listed = [v2 for v2, _ in t["cases"]]
+                    edge_truth = True if listed == [0] else (False if listed == [1] else None)
+                if edge_truth is not None and edge_truth != truth:
+                    out.add((s, tg))
+        elif d[0] == "discr" and strip_refs(d[1]) in hyp:
+            x = strip_refs(d[1])
+            names = variants.get(x)
+            if not names:
+                continue
+            rel, v = hyp[x]
+            listed = [v2 for v2, _ in t["cases"]]
+            for tg, vals, oth in edges:
+                poss = {names[v2] for v2 in vals if v2 in names}
+                if oth:
+                    poss |= {n for dv, n in names.items() if dv not in listed}
+                if rel == "eq" and v not in poss:
+                    out.add((s, tg))
+                elif rel == "ne" and poss and poss <= (set(v) if isinstance(v, (tuple, set, frozenset)) else {v}):
+                    out.add((s, tg))
+    return out
